@@ -432,6 +432,75 @@ fn raw_special(out: &str) -> Option<String> {
     None
 }
 
+/// Which templates are autoescaped is decided by the whole name against the whole suffix list, whatever the order and
+/// grouping in which templates were added and suffix lists were set: names sharing their last extension but not the
+/// matching suffix, multi-dot suffixes, suffixes without a dot, a name equal to a suffix, registration in several calls
+/// with the list changed before, between and after them. After every step every registered template is rendered alone
+/// (a world in which every participating template has the same setting) with the marking escaper.
+fn suffix_history_case(cx: &mut Cx, case: u64, r: &mut Rng) {
+    cx.begin_case(case, "suffix-history");
+    const NAMES: &[&str] = &["a.html", "b.php.html", "mail/plain.html", "c.a.b", "d.b", "x.tpl", "y.t.tpl", "noext", "e.html.txt", "f.xml", ".html", "g.HTML", "h.php.htm", "dir.html/i", "j.txt", "k.t.txt", "l.php.xml", "m.a.a.b"];
+    const LISTS: &[&[&str]] = &[&[".php.html"], &[".html"], &[".a.b", ".tpl"], &[".t.tpl", ".t.txt"], &["html"], &["l"], &[], &[".html", ".php.html"], &["plain.html"], &[".php.htm", ".php.xml"], &[".b"], &[".a.a.b", ".txt"], &["ext"], &[".html.txt"]];
+    let mut t = Tera::default();
+    t.set_escape_fn(mark);
+    let mut current: Vec<&str> = vec![".html", ".htm", ".xml"];
+    let mut names: Vec<&str> = NAMES.to_vec();
+    for i in (1..names.len()).rev() {
+        names.swap(i, r.below(i + 1));
+    }
+    names.truncate(3 + r.below(8));
+    let mut registered: Vec<&str> = Vec::new();
+    let mut history: Vec<serde_json::Value> = Vec::new();
+    let mut pos = 0;
+    let steps = 2 + r.below(5);
+    let mut ctx = Context::new();
+    ctx.insert("v", "α<'");
+    for _ in 0..steps {
+        if pos < names.len() && r.chance(2, 3) {
+            let n = 1 + r.below((names.len() - pos).min(4));
+            let batch: Vec<(String, String)> = names[pos..pos + n].iter().map(|n| (n.to_string(), "t{{ v }}{% set c %}{{ v }}{% endset %}{{ c }}".to_string())).collect();
+            history.push(json!({"add": names[pos..pos + n]}));
+            registered.extend(&names[pos..pos + n]);
+            pos += n;
+            if let Err(e) = t.add_raw_templates(batch) {
+                cx.violation("C01/valid-route-rejected/suffix-history", format!("registration failed: {e}"), json!({"history": history}));
+                return;
+            }
+        } else {
+            let l = *r.pick(LISTS);
+            history.push(json!({"autoescape_on": l}));
+            t.autoescape_on(l.to_vec());
+            current = l.to_vec();
+        }
+        for name in &registered {
+            let expect = current.iter().any(|s| name.ends_with(s));
+            let b0 = ESC_CALLS.load(Ordering::Relaxed);
+            cx.eval();
+            match guard(|| t.render(name, &ctx)) {
+                Ok(Ok(o)) => {
+                    let calls = ESC_CALLS.load(Ordering::Relaxed) - b0;
+                    let ds = depths(&o);
+                    cx.count("suffix_decisions_checked", 1);
+                    cx.cell(format!("suffix-history|{name}|{}|{}", current.join(","), if expect { "on" } else { "off" }));
+                    let ok = if expect { ds.len() == 6 && ds.iter().all(|(_, d)| *d == 1) && calls == 2 } else { ds.len() == 6 && ds.iter().all(|(_, d)| *d == 0) && calls == 0 };
+                    if !ok {
+                        cx.violation(
+                            &format!("C01/suffix-decision/{}", if expect { "unescaped-data" } else { "escaper-used-although-autoescape-is-off" }),
+                            format!("template {name:?} with the suffix list {current:?} should {}be autoescaped; {calls} escaper call(s), marked output {o:?}", if expect { "" } else { "not " }),
+                            json!({"history": history, "template": name, "suffixes": current}),
+                        );
+                        return;
+                    }
+                }
+                other => {
+                    cx.violation("C01/valid-route-fails/suffix-history", format!("render of {name:?} failed: {:?}", other.map(|x| x.map_err(|e| e.to_string()))), json!({"history": history}));
+                    return;
+                }
+            }
+        }
+    }
+}
+
 pub fn run(cx: &mut Cx) {
     let total = cx.total(40_000, 3_000_000);
     let vars = base_context();
@@ -468,6 +537,10 @@ pub fn run(cx: &mut Cx) {
                     Err(p) => cx.violation(&format!("C01/panic/{}", panic_site(&p)), format!("render panicked: {p}"), json!({"templates": program.templates})),
                 }
             }
+            continue;
+        }
+        if case % 16 == 5 {
+            suffix_history_case(cx, case, &mut r);
             continue;
         }
         cx.begin_case(case, "routes");
